@@ -17,6 +17,12 @@
 //   python-vs-go-differs
 //        "The JSON Python produces for a document equals the JSON Go produces for the same document"
 //        judged only when Go itself satisfies C01 on that document (otherwise blocked_by=C01).
+//   python-from_json-undecoded
+//        "… so data written by one generated SDK is readable by the other": reading means from_json
+//        builds the generated classes; a position whose schema type is a struct (inline, referenced,
+//        branch of a discriminated union) must hold an instance of a generated class, not the raw
+//        dict. JSON text cannot show this (a raw dict re-encodes to itself), so the Python driver
+//        also returns the shape of the object graph. Enums and scalars kept as plain values are fine.
 // Leniences: numbers compared as exact rationals, key order free, optional
 // explicit null may be omitted (for both comparisons). Preconditions counted,
 // never failed: generation errors (C01/C04), Python module that does not import
@@ -32,6 +38,7 @@ import (
 
 	"github.com/grafana/cog/verifx/genrun"
 	"github.com/grafana/cog/verifx/gschema"
+	"github.com/grafana/cog/verifx/irgen"
 	"github.com/grafana/cog/verifx/vx"
 )
 
@@ -42,6 +49,14 @@ func main() {
 	genrun.MaybeServe()
 	r.PerKindSmallest = true
 	schemas := gschema.Enumerate(r.Thorough())
+	if !r.Thorough() {
+		// four members of the thorough set the quick tier needs for nested containers of objects
+		// (their reductions array(ref S), map(ref S) are quick members, so the set stays downward closed)
+		S := irgen.Ref(gschema.Pkg + ".S")
+		for _, t := range []gschema.Term{irgen.Array(irgen.Map(S)), irgen.Map(irgen.Array(S)), irgen.Array(irgen.Array(S)), irgen.Map(irgen.Map(S))} {
+			schemas = append(schemas, gschema.Field1(t, true))
+		}
+	}
 	if r.Replay != "" {
 		_, witness, _ := r.ReplayFile()
 		want := witness[strings.Index(witness, " :: ")+4:]
@@ -76,13 +91,26 @@ func main() {
 	bump := func(k string) { counts[k]++ }
 	distinctOutcomes := map[string]bool{}
 	executions := 0
+	seenBase := map[string]string{}
 
 	fail := func(c *genrun.Case, clause, diag, doc, what string) {
 		kind := clause
-		if d := normDiag(diag); d != "" {
+		if strings.HasPrefix(diag, "=") { // an already normalised diff class
+			kind += ": " + diag[1:]
+		} else if d := normDiag(diag); d != "" {
 			kind += ": " + d
 		}
 		bump("fail:" + clause)
+		// The same schema failing the same way in an earlier format is one finding,
+		// reported there; the kind names the first format that shows it, so a
+		// defect of one front-end cannot hide behind another front-end's.
+		sk := c.Schema.String() + " | " + kind
+		if first, ok := seenBase[sk]; ok && first != c.Format {
+			bump("same failure already reported in an earlier format (docs)")
+			return
+		}
+		seenBase[sk] = c.Format
+		kind += " [" + c.Format + "]"
 		r.Fail(vx.Failure{
 			Kind:    kind,
 			Witness: c.Format + " :: " + c.Schema.String(),
@@ -158,6 +186,13 @@ func main() {
 					outcome = "py-encode-raises"
 				} else {
 					pyJSON, havePy = presp["json"].(string)
+					// "readable by the other": every struct position must hold a generated class
+					if d := undecoded(c.Schema, c.Schema.Objs[0].T, "root", lenientValue(c.Schema, doc), presp["shape"], 3); d != "" {
+						fail(c, "python-from_json-undecoded", "="+d, doc, "from_json succeeds but leaves part of the document undecoded: "+d)
+						outcome = "py-undecoded"
+					} else {
+						bump("from_json builds generated classes at every struct position (docs)")
+					}
 				}
 			}
 			pyCanon, pyDiffers := "", false
@@ -217,13 +252,13 @@ func main() {
 						bump("python-vs-go-differs implied by python-roundtrip-differs (docs)")
 						outcome += "+vs-go-differs"
 					default:
-						fail(c, "python-vs-go-differs", diffClass(c.Schema, goText, pyJSON), doc, fmt.Sprintf("for the same document Go writes %s and Python writes %s", goText, pyJSON))
+						fail(c, "python-vs-go-differs", "="+diffClass(c.Schema, goText, pyJSON), doc, fmt.Sprintf("for the same document Go writes %s and Python writes %s", goText, pyJSON))
 						outcome += "+vs-go-differs"
 					}
 				}
 			}
 			if pyDiffers {
-				fail(c, "python-roundtrip-differs", diffClass(c.Schema, doc, pyJSON), doc, fmt.Sprintf("Python from_json→to_json gives %s, which is not JSON-equal to the document; Go writes %s", pyJSON, goText))
+				fail(c, "python-roundtrip-differs", "="+diffClass(c.Schema, doc, pyJSON), doc, fmt.Sprintf("Python from_json→to_json gives %s, which is not JSON-equal to the document; Go writes %s", pyJSON, goText))
 			}
 			distinctOutcomes[outcome] = true
 			if outcome == "ok" {
@@ -271,6 +306,7 @@ func main() {
 		"counts":                        cnt,
 		"formats_skipped":               skipped,
 		"distinct_outcomes":             len(distinctOutcomes),
+		"nested_struct_positions_checked_for_decoding": structPositionsChecked,
 		"explanation":                   "grammar G enumerated completely for the tier; each schema rendered in every format that can express it; one real pipeline run per case generates Go (json marshaller + strict unmarshaller) and Python (json marshaller); the Go packages are compiled and linked into one driver, the Python packages are imported by one python3 process; every document of the alphabet that all reference validators accept goes through Root.from_json + json.dumps(cls=JSONEncoder) and through Go json.Unmarshal + json.Marshal, and the three JSON texts are compared",
 	}, []string{
 		"numbers compared as exact rationals, key order free, optional properties given as explicit null may be absent (input vs Python and Go vs Python alike)",
